@@ -44,6 +44,13 @@ fn reply_case(out: &mut Out, v: &RespValue, what: &str) {
     if dirty {
         out.count("replies_with_cr_or_lf_in_line_payload");
     }
+    let (long_lines, long_dirty_tail) = long_line_stats(v);
+    if long_lines > 0 {
+        out.count("line_reply_over_1k");
+    }
+    if long_dirty_tail > 0 {
+        out.count("crlf_in_last_512_of_long_line");
+    }
     match v {
         RespValue::Error(_) => out.count("error_replies"),
         RespValue::Array(_) => out.count("array_replies"),
@@ -83,6 +90,117 @@ fn reply_case(out: &mut Out, v: &RespValue, what: &str) {
     }
 }
 
+/// (line-type payloads longer than 1 KiB, those of them with CR or LF in their last 512 bytes)
+fn long_line_stats(v: &RespValue) -> (u64, u64) {
+    match v {
+        RespValue::SimpleString(s) | RespValue::Error(s) => {
+            let b = s.as_bytes();
+            if b.len() > 1024 {
+                let tail = &b[b.len() - 512..];
+                (1, tail.iter().any(|&c| c == b'\r' || c == b'\n') as u64)
+            } else {
+                (0, 0)
+            }
+        }
+        RespValue::Array(items) => items.iter().map(long_line_stats).fold((0, 0), |a, b| (a.0 + b.0, a.1 + b.1)),
+        _ => (0, 0),
+    }
+}
+
+const INJECT: [&[u8]; 8] = [b"\r\n", b"\r", b"\n", b"\r\n+OK\r\n", b"\r\n$-1\r\n", b"\r\n+OK", b"\n\r", b"\r\n:1\r\n"];
+
+/// `size` bytes of filler that is harmless inside a quoted Cypher literal, a label, a graph or
+/// command name (letters, digits, a few spaces, some multi-byte characters), with the
+/// fragments of `at` spliced in: (offset from the start | offset from the END, fragment)
+fn long_text(r: &mut Rng, size: usize, at: &[(bool, usize, &[u8])]) -> Vec<u8> {
+    let mut s = String::with_capacity(size + 8);
+    while s.len() < size {
+        match r.below(40) {
+            0 => s.push(' '),
+            1 => s.push('\u{e9}'),
+            2 => s.push('\u{20ac}'),
+            3 => s.push('.'),
+            k => s.push((b'a' + (k % 26) as u8) as char),
+        }
+    }
+    let mut b = s.into_bytes();
+    // splice on character boundaries only (the result must stay valid UTF-8)
+    let mut cuts: Vec<(usize, &[u8])> = at
+        .iter()
+        .map(|(from_end, off, f)| {
+            let mut p = if *from_end { b.len().saturating_sub(*off) } else { (*off).min(b.len()) };
+            while p < b.len() && (b[p] & 0xC0) == 0x80 {
+                p += 1;
+            }
+            (p, *f)
+        })
+        .collect();
+    cuts.sort_by(|x, y| y.0.cmp(&x.0));
+    for (p, f) in cuts {
+        b.splice(p..p, f.iter().cloned());
+    }
+    b
+}
+
+/// where the injections go: start, middle, and within the last 1..600 bytes
+fn long_input(r: &mut Rng, size: usize) -> Vec<u8> {
+    let mut at: Vec<(bool, usize, &[u8])> = Vec::new();
+    let f = |r: &mut Rng| -> &'static [u8] { INJECT[r.below(INJECT.len() as u64) as usize] };
+    match r.below(8) {
+        0 => at.push((false, 0, f(r))),
+        1 => at.push((false, size / 2, f(r))),
+        2 => at.push((true, 0, f(r))),
+        3 => at.push((true, r.range(1, 600) as usize, f(r))),
+        4 => {
+            at.push((true, r.range(1, 40) as usize, f(r)));
+            at.push((false, r.below(size as u64) as usize, f(r)));
+        }
+        5 => {
+            at.push((false, 0, f(r)));
+            at.push((false, size / 2, f(r)));
+            at.push((true, r.range(1, 600) as usize, f(r)));
+        }
+        6 => at.push((true, r.range(400, 600) as usize, f(r))),
+        _ => {
+            for _ in 0..r.range(1, 6) {
+                at.push((r.chance(1, 2), r.below(size as u64) as usize, f(r)));
+            }
+        }
+    }
+    long_text(r, size, &at)
+}
+
+fn long_size(r: &mut Rng) -> usize {
+    match r.below(6) {
+        0 => r.range(600, 1024) as usize,
+        1 => r.range(1000, 1100) as usize,
+        2 | 3 => r.range(1025, 2000) as usize,
+        _ => r.range(2000, 5000) as usize,
+    }
+}
+
+/// every position a long client input can reach a reply from
+fn long_commands(cx: &Ctx, out: &mut Out, t: &[u8], what: &str) {
+    let q = |pre: &str, post: &str| [pre.as_bytes(), t, post.as_bytes()].concat();
+    // command name (echoed upper-cased), graph name
+    run_cmd(cx, out, &cmd(&[t]), &format!("{}-command-name", what));
+    run_cmd(cx, out, &cmd(&[b"GRAPH.QUERY", t, b"RETURN 1"]), &format!("{}-graph-name", what));
+    // the query text itself; failing queries that echo a literal
+    run_cmd(cx, out, &cmd(&[b"GRAPH.QUERY", b"default", t]), &format!("{}-query-text", what));
+    run_cmd(cx, out, &cmd(&[b"GRAPH.QUERY", b"default", &q("RETURN date('", "')")]), &format!("{}-date-literal", what));
+    run_cmd(cx, out, &cmd(&[b"GRAPH.QUERY", b"default", &q("RETURN nosuchfn('", "')")]), &format!("{}-unknown-fn", what));
+    run_cmd(cx, out, &cmd(&[b"GRAPH.QUERY", b"default", &q("MATCH (n:`", "`) RETURN n.")]), &format!("{}-syntax-error", what));
+    run_cmd(cx, out, &cmd(&[b"GRAPH.QUERY", b"default", &q("RETURN '", "' AS v, 1 +")]), &format!("{}-syntax-error", what));
+    // literal that comes back as data, stored value read back, failing query over the stored value
+    run_cmd(cx, out, &cmd(&[b"GRAPH.QUERY", b"default", &q("RETURN '", "' AS v")]), &format!("{}-literal", what));
+    run_cmd(cx, out, &cmd(&[b"GRAPH.QUERY", b"default", b"MATCH (n:C22L) DELETE n"]), &format!("{}-reset", what));
+    run_cmd(cx, out, &cmd(&[b"GRAPH.QUERY", b"default", &q("CREATE (n:C22L {born: '", "'}) RETURN n.born")]), &format!("{}-store", what));
+    run_cmd(cx, out, &cmd(&[b"GRAPH.QUERY", b"default", b"MATCH (n:C22L) RETURN n.born"]), &format!("{}-stored-value", what));
+    run_cmd(cx, out, &cmd(&[b"GRAPH.QUERY", b"default", b"MATCH (n:C22L) RETURN date(n.born)"]), &format!("{}-date-of-stored", what));
+    run_cmd(cx, out, &cmd(&[b"GRAPH.QUERY", b"default", b"MATCH (n:C22L) RETURN toInteger(n.born) + duration(n.born)"]), &format!("{}-fn-of-stored", what));
+    run_cmd(cx, out, &cmd(&[b"ECHO", t]), &format!("{}-echo", what));
+}
+
 fn run_cmd(cx: &Ctx, out: &mut Out, c: &RespValue, what: &str) {
     let reply = cx.rt.block_on(cx.handler.handle_command(c, &cx.store));
     reply_case(out, &reply, &format!("{} cmd={:?}", what, c));
@@ -96,7 +214,10 @@ fn main() {
                 arguments, invalid UTF-8 arguments, GRAPH.QUERY with 40 query templates x injected fragments \
                 (CR, LF, CRLF, 'a CRLF b', CRLF '+OK' CRLF, CRLF '$-1' CRLF) placed in the command name, graph name, \
                 query text, string literals, aliases, labels, property names, stored values, parameters of failing \
-                queries; plus random reply values (nesting <= 4) with CR/LF in line payloads. Every reply is encoded \
+                queries; plus random reply values (nesting <= 4) with CR/LF in line payloads; long inputs of 600-5000 bytes \
+                (command name, graph name, query text, literals, stored property values, failing queries echoing them, \
+                direct SimpleString/Error values) with CR, LF, CRLF, CRLF '+OK' CRLF, CRLF '$-1' CRLF at the start, in the \
+                middle and within the last 1-600 bytes. Every reply is encoded \
                 by RespValue::encode. Non-trivial: all; distinct by case text."
         .to_string();
     let cx = Ctx {
@@ -223,6 +344,48 @@ fn main() {
             _ => rand_value(&mut r, 4, true),
         };
         reply_case(&mut out, &v, "generated");
+    }
+    // long inputs (600..5000 bytes) with CR / LF / CRLF / frame-looking fragments at the start, in
+    // the middle and within the last 1..600 bytes, in every position that can reach a reply
+    {
+        // a fixed family first, the same for every seed
+        let mut r = Rng::for_case(0, 77);
+        for (size, at) in [
+            (1500usize, vec![(true, 0usize, &b"\r\n+OK"[..])]),
+            (1500, vec![(true, 300, &b"\r\n"[..])]),
+            (1100, vec![(true, 1, &b"\n"[..])]),
+            (3000, vec![(false, 0, &b"\r\n$-1\r\n"[..]), (true, 511, &b"\r"[..])]),
+            (4000, vec![(false, 2000, &b"\r\n+OK\r\n"[..])]),
+            (700, vec![(true, 10, &b"\r\n+OK\r\n"[..])]),
+        ] {
+            let t = long_text(&mut r, size, &at);
+            long_commands(&cx, &mut out, &t, "long-fixed");
+        }
+        let n_long_cmd = if args.thorough { 150 } else { 10 };
+        for c in 0..n_long_cmd {
+            let mut r = Rng::for_case(args.seed, 6_000_000 + c);
+            let size = long_size(&mut r);
+            let t = long_input(&mut r, size);
+            long_commands(&cx, &mut out, &t, "long");
+        }
+        // line-type values of those sizes straight through encode (alone and nested)
+        let n_long_val = if args.thorough { 2500 } else { 160 };
+        for c in 0..n_long_val {
+            let mut r = Rng::for_case(args.seed, 7_000_000 + c);
+            let size = long_size(&mut r);
+            let text = String::from_utf8(long_input(&mut r, size)).expect("long_input keeps UTF-8");
+            let line = match r.below(3) {
+                0 => RespValue::SimpleString(text),
+                1 => RespValue::Error(format!("ERR {}", text)),
+                _ => RespValue::Error(text),
+            };
+            let v = if r.chance(1, 5) {
+                RespValue::Array(vec![RespValue::Integer(1), RespValue::Array(vec![line, RespValue::Null])])
+            } else {
+                line
+            };
+            reply_case(&mut out, &v, "long-value");
+        }
     }
     // deep replies (nested lists): beyond the decoder's own limit the independent reader decides
     for d in [1usize, 31, 32, 33, 40] {
